@@ -69,7 +69,7 @@ def jobBad (s : St) : Bool :=
   | none => false
   | some (n, snap, _) =>
     match sget s.tags n with
-    | some ot => !(ot.defn == snap.defn && !ot.unc.isEmpty)
+    | some ot => !(ot.defn == snap.defn && ot.gen == snap.gen && !ot.unc.isEmpty)  -- CHANGED (gen)
     | none => true
 
 def jb (s : St) : Nat := if jobBad s then 1 else 0
